@@ -145,6 +145,21 @@ CLAIMED = {
             'Fingerprints of vf/fingerprint.py; astropy\'s own Quantity equality '
             'defines which unit re-expressions are "equal".',
             'DESIGN.md section 5, C16'),
+    'C17': ('exploration',
+            'Hypothesis-driven catalogue of invalid/valid values per documented '
+            'parameter kind x {constructor, assignment}; rule-based state '
+            'machine per region with a fingerprint shadow model; every dict '
+            'entry point of RegionMeta/RegionVisual; container constructors',
+            'Random search over 23 classes x every parameter x ~10 invalid '
+            'values per kind, histories of 20 interleaved valid/invalid '
+            'assignments, deletions and meta/visual mutations. A rejected '
+            'operation must raise ValueError/TypeError/KeyError and leave the '
+            'deep fingerprint unchanged. The annulus cross-field ordering on '
+            'assignment is a listed known finding, excluded by construction '
+            'and probed separately.',
+            'Parameter kinds read from the documented signatures '
+            '(vf/props/c17.py: kind_of); fingerprints of vf/fingerprint.py.',
+            'DESIGN.md section 5, C17'),
 }
 
 PENDING_REASON = ('check designed (DESIGN.md section 5) but not yet built and '
